@@ -115,11 +115,40 @@ func (g *gen) subRange(cur []vt.Iv, fd int, mode int) string {
 			if fd == 0 && i == len(cur)-1 && b.Cmp(cur[len(cur)-1].Hi) == 0 && g.pick(2, "maxkw") == 0 {
 				hi = "max"
 			}
+			if span := new(big.Int).Sub(b, a); lo != "min" && hi != "max" && span.Cmp(big.NewInt(16)) >= 0 && g.pick(4, "manyparts") == 0 {
+				// many disjoint parts (port lists, vlan lists): 3-8 of them, some a single value
+				k := 3 + g.pick(6, "nparts")
+				step := new(big.Int).Div(span, big.NewInt(int64(2*k)))
+				for j := 0; j < k; j++ {
+					pl := new(big.Int).Add(a, new(big.Int).Mul(step, big.NewInt(int64(2*j))))
+					ph := new(big.Int).Add(pl, step)
+					if j == k-1 {
+						ph = b
+					}
+					if g.pick(3, "singlepart") == 0 {
+						parts = append(parts, f(pl))
+					} else {
+						parts = append(parts, f(pl)+".."+f(ph))
+					}
+				}
+				continue
+			}
 			if a.Cmp(b) == 0 && lo != "min" && hi != "max" && g.pick(2, "single") == 0 {
 				parts = append(parts, lo)
 			} else {
 				parts = append(parts, lo+".."+hi)
 			}
+		}
+		if huge := new(big.Int).Lsh(big.NewInt(1), 56); len(cur) == 1 && new(big.Int).Sub(cur[0].Hi, cur[0].Lo).Cmp(huge) > 0 && g.pick(3, "neargap") == 0 {
+			// two parts with a small gap between them far beyond 2^53, near either end of a 64-bit interval: whether
+			// they touch cannot be told in floating point
+			iv := cur[0]
+			gap := big.NewInt([]int64{2, 3, 17, 100, 300, 1}[g.pick(6, "gapwidth")])
+			piv := new(big.Int).Sub(iv.Hi, big.NewInt(int64(1000+g.pick(5000, "gapat"))))
+			if iv.Lo.Sign() < 0 && g.pick(2, "gaplow") == 0 {
+				piv = new(big.Int).Add(iv.Lo, big.NewInt(int64(1000+g.pick(5000, "gapat"))))
+			}
+			parts = []string{f(iv.Lo) + ".." + f(piv), f(new(big.Int).Add(piv, gap)) + ".." + f(iv.Hi)}
 		}
 		if len(parts) == 0 {
 			iv := cur[0]
